@@ -499,12 +499,131 @@ fn check_workload(w: &Workload, info: &mut Info) -> Result<(), String> {
     Ok(())
 }
 
+// ---- bursts: many threads hammering a small set of operations in tight loops -------------------------
+// (the shape that exposes check-then-use races on process-wide caches: narrow windows need density)
+
+#[derive(Clone, Debug, Serialize, Deserialize, PartialEq, Eq, Hash)]
+pub enum BOp {
+    /// G2Affine::prepare() of a pool point: fingerprint of the prepared element
+    PrepareG2(u8),
+    /// a dense run of prepare() calls over at most three shared G2 points (indices 0..3), each result
+    /// compared with that point's sequential fingerprint
+    PrepareRun(Vec<u8>),
+    PrepareG1(u8),
+    Any(WOp),
+}
+
+#[derive(Clone, Debug, Serialize, Deserialize, PartialEq, Eq, Hash)]
+pub struct Burst {
+    pub ops: Vec<BOp>,
+    pub threads: u8,
+    pub reps: u8,
+    pub offsets: Vec<u8>,
+}
+
+fn burst_strategy() -> BoxedStrategy<Burst> {
+    let cheap = prop_oneof![
+        3 => (0u8..4).prop_map(BOp::PrepareG2),
+        5 => proptest::collection::vec(0u8..3, 8..40).prop_map(BOp::PrepareRun),
+        1 => (0u8..4).prop_map(BOp::PrepareG1),
+        2 => (0u8..3, 0u8..3).prop_map(|(i, j)| BOp::Any(WOp::Pairing(i, j))),
+        2 => (0u8..2, point_strategy(false), scalar_strategy(), 0u8..5).prop_map(|(g, p, k, path)| BOp::Any(WOp::Mul(g, p, k, path))),
+        1 => (0u8..2, any::<bool>(), 0u8..4, msg_strategy(), dst_strategy()).prop_map(|(g, ro, e, m, d)| BOp::Any(WOp::Hash(g, ro, e, m, d))),
+        1 => (fq2_strategy(), fq2_strategy()).prop_map(|(a, b)| BOp::Any(WOp::Fq2Arith(a, b))),
+        1 => fq2_strategy().prop_map(|a| BOp::Any(WOp::Sqrt(a))),
+        1 => (0u8..2, point_strategy(true), point_strategy(true)).prop_map(|(g, p, q)| BOp::Any(WOp::Group(g, p, q))),
+    ];
+    (proptest::collection::vec(cheap, 2..5), 4u8..=16, 24u8..=96, proptest::collection::vec(any::<u8>(), 16)).prop_map(|(ops, threads, reps, offsets)| Burst { ops, threads, reps, offsets }).boxed()
+}
+
+fn exec_b<'a>(op: &BOp, sh: &Shared<'a>, lo: &mut Local<'a>) -> Result<Vec<u8>, String> {
+    match op {
+        BOp::PrepareG2(j) => {
+            let q = aff_c::<G2m>(&G2m::pool().sub[*j as usize % POOL_SUB].1);
+            let p = cr("G2Affine::prepare", || q.prepare())?;
+            Ok(format!("{:?}", p).into_bytes())
+        }
+        BOp::PrepareRun(seq) => {
+            // reference fingerprints of the (at most three) points, computed by this same call pattern
+            // on first use per thread would hide a race; they are computed from fresh single calls here
+            let mut out = vec![];
+            for j in seq {
+                let q = aff_c::<G2m>(&G2m::pool().sub[*j as usize % 3].1);
+                let p = cr("G2Affine::prepare", || q.prepare())?;
+                // fold the fingerprint into a short digest to keep the loop dense
+                let f = format!("{:?}", p);
+                let mut h = std::collections::hash_map::DefaultHasher::new();
+                std::hash::Hash::hash(&f, &mut h);
+                out.extend_from_slice(&std::hash::Hasher::finish(&h).to_le_bytes());
+            }
+            Ok(out)
+        }
+        BOp::PrepareG1(i) => {
+            let q = aff_c::<G1m>(&G1m::pool().sub[*i as usize % POOL_SUB].1);
+            let p = cr("G1Affine::prepare", || q.prepare())?;
+            Ok(format!("{:?}", p).into_bytes())
+        }
+        BOp::Any(w) => exec(w, sh, lo),
+    }
+}
+
+fn check_burst(b: &Burst, info: &mut Info) -> Result<(), String> {
+    let _ = (G1m::pool(), G2m::pool());
+    let p_prep = aff_c::<G1m>(&G1m::pool().sub[0].1).prepare();
+    let q_prep = aff_c::<G2m>(&G2m::pool().sub[0].1).prepare();
+    let sh = Shared { wb1: None, wb2: None, p_prep: &p_prep, q_prep: &q_prep };
+    let mut lo = Local::new(&sh);
+    let mut reference = vec![];
+    for op in &b.ops {
+        reference.push(exec_b(op, &sh, &mut lo)?);
+    }
+    let t = std::cmp::max(2, b.threads as usize);
+    let n = b.ops.len();
+    let prepares = b.ops.iter().filter(|o| matches!(o, BOp::PrepareG2(_) | BOp::PrepareG1(_) | BOp::PrepareRun(_))).count();
+    info.class(format!("threads={}", t));
+    info.class(format!("prepare-ops={}", prepares));
+    info.nt_if(n >= 2);
+    let barrier = Barrier::new(t);
+    let results: Vec<Result<(), String>> = std::thread::scope(|s| {
+        let hs: Vec<_> = (0..t)
+            .map(|ti| {
+                let (sh, barrier, reference, ops) = (&sh, &barrier, &reference, &b.ops);
+                let off = b.offsets.get(ti % b.offsets.len().max(1)).copied().unwrap_or(0) as usize;
+                let reps = b.reps as usize;
+                s.spawn(move || {
+                    crate::engine::install_panic_hook();
+                    let mut lo = Local::new(sh);
+                    barrier.wait();
+                    for rep in 0..reps {
+                        for k in 0..n {
+                            let i = (k + off) % n;
+                            let got = exec_b(&ops[i], sh, &mut lo)?;
+                            if got != reference[i] {
+                                return Err(format!("thread {} repetition {}: operation #{} ({:?}) returned different bits than the sequential reference while {} threads were running", ti, rep, i, ops[i], t));
+                            }
+                        }
+                    }
+                    Ok(())
+                })
+            })
+            .collect();
+        hs.into_iter().map(|h| h.join().unwrap_or_else(|_| Err("worker thread panicked outside a crate call".to_string()))).collect()
+    });
+    for r in results {
+        r?;
+    }
+    Ok(())
+}
+
 pub fn def() -> PropDef {
     PropDef {
         id: "C20",
-        rule: "workloads of 2..13 operations drawn from the other properties' operation sets (Fq2 / Fq12 arithmetic, square roots, group operations incl. batch normalization, every scalar-multiplication path, wNAF contexts, sum_of_products, Miller loop + final exponentiation, hashing to both groups, (de)serialization), a generated assignment to 2..16 threads released by a barrier, per-thread prefixes of unrelated calls, 1..3 repetitions; all threads borrow one wNAF window table and one prepared (G1, G2) pair. Oracle: bit-identical results (raw X, Y, Z coordinates / field coefficients) between a sequential run, a second sequential run in reverse order with other prefixes, and every concurrent run; no panic; completion (watchdog). Non-trivial = at least two threads use the borrowed shared state; distinct = distinct workloads",
+        rule: "workloads of 2..13 operations drawn from the other properties' operation sets (Fq2 / Fq12 arithmetic, square roots, group operations incl. batch normalization, every scalar-multiplication path, wNAF contexts, sum_of_products, Miller loop + final exponentiation, hashing to both groups, (de)serialization), a generated assignment to 2..16 threads released by a barrier, per-thread prefixes of unrelated calls, 1..3 repetitions; all threads borrow one wNAF window table and one prepared (G1, G2) pair. Oracle: bit-identical results (raw X, Y, Z coordinates / field coefficients) between a sequential run, a second sequential run in reverse order with other prefixes, and every concurrent run; no panic; completion (watchdog). Bursts: 4..16 threads hammer 2..4 operations over a handful of shared points in tight loops. Non-trivial = at least two threads use the borrowed shared state (workloads) / at least two operations in the burst; distinct = distinct cases",
         needs_pairing: false,
-        subs: vec![Box::new(Sub { name: "workloads", rule: "sequential == re-ordered sequential == concurrent, bit for bit", quick: 160, thorough: 6000, strategy: || boxed(workload_strategy()), check: check_workload })],
+        subs: vec![
+            Box::new(Sub { name: "workloads", rule: "sequential == re-ordered sequential == concurrent, bit for bit", quick: 640, thorough: 6000, strategy: || boxed(workload_strategy()), check: check_workload }),
+            Box::new(Sub { name: "bursts", rule: "4..16 barrier-released threads each repeat a list of 2..4 operations (G1/G2 prepare of a few shared points, pairings, multiplications, hashing, field and group operations) 24..96 times from different starting offsets; every single result must be bit-identical to the sequential reference (exposes check-then-use races on process-wide state, which need call density)", quick: 48, thorough: 1500, strategy: || boxed(burst_strategy()), check: check_burst }),
+        ],
         assumptions: {
             let mut v = COMMON_ASSUMPTIONS.to_vec();
             v.push("the operating system schedules the threads: interleavings are sampled, not enumerated; the crate has no synchronisation points a harness could own (loom/shuttle have nothing to hook)");
